@@ -473,6 +473,48 @@ pub fn check_line(
         }
     }
 
+    // help and version flag on the same line: help wins whichever is written first
+    if !mutated && !has_adj {
+        let p = argv.len().min(left_end) / 2;
+        let (_, l) = exact_at(level, argv, p);
+        if l.info.version.is_some() {
+            let v = format!("--{}", l.info.version_longs()[0]).into_bytes();
+            let h = format!("--{}", l.info.help_longs()[0]).into_bytes();
+            let mut outs = Vec::new();
+            for order in [[h.clone(), v.clone()], [v.clone(), h.clone()]] {
+                let mut a = argv.to_vec();
+                a.insert(p, order[1].clone());
+                a.insert(p, order[0].clone());
+                outs.push((a.clone(), run(&parser, &a)));
+                ctx.eval(1);
+            }
+            ctx.class("help-and-version-together");
+            let texts: Vec<Option<&String>> = outs
+                .iter()
+                .map(|(_, o)| match o {
+                    Outcome::Stdout { text, .. } => Some(text),
+                    _ => None,
+                })
+                .collect();
+            let is_version = |t: &str| t.trim_start().starts_with("Version:");
+            match (&texts[0], &texts[1]) {
+                (Some(a), Some(b)) if a == b && !is_version(a) => {}
+                _ => {
+                    return Verdict::fail(
+                        "help-and-version-together/order-decides-or-version-wins",
+                        format!(
+                            "{:?} -> {}\n{:?} -> {}",
+                            show_argv(&outs[0].0),
+                            outs[0].1.short(),
+                            show_argv(&outs[1].0),
+                            outs[1].1.short()
+                        ),
+                    )
+                }
+            }
+        }
+    }
+
     // version flag on clean lines
     if !mutated {
         for p in 0..=left_end {
